@@ -120,15 +120,18 @@ def script_w1(p):
     """Sample lists: n_samples, iterator, average, _average_2tuple, sample_stat."""
     import nifty.cl as ift
     rng = np.random.default_rng(p["dataseed"])
-    dom = ift.RGSpace(4)
+    dom = ift.RGSpace(4) if p["ftype"] != "field2d_f" else ift.RGSpace((2, 3))
     mdom = ift.makeDomain({"a": dom, "b": ift.UnstructuredDomain(2)})
     m = p["m"]
 
     def mk(d):
+        if d is dom and p["ftype"] == "field2d_f":
+            # 2-d values that are Fortran-ordered in memory (a Field keeps the array it is given)
+            return ift.makeField(dom, np.asfortranarray(_vals(rng, (2, 3))))
         if d is dom:
             return ift.makeField(dom, _vals(rng, 4))
         return ift.MultiField.from_raw(d, {k: _vals(rng, d[k].shape) for k in d.keys()})
-    D = dom if p["ftype"] == "field" else mdom
+    D = dom if p["ftype"] in ("field", "field2d_f") else mdom
     mean = mk(D)
     if p["kind"] == "plain":
         items = [mk(D) for _ in range(m)]
@@ -453,7 +456,7 @@ def run_case(case):
 def gen_params(script, rng):
     if script == "W1":
         m = rng.randrange(1, 7)
-        return {"kind": rng.choice(["plain", "residual"]), "ftype": rng.choice(["field", "multifield"]),
+        return {"kind": rng.choice(["plain", "residual"]), "ftype": rng.choice(["field", "multifield", "field2d_f"]),
                 "m": m, "op": rng.choice([None, "lin", "nonlin"]), "subdomain": rng.random() < 0.4,
                 "partition": None, "dataseed": rng.randrange(1000)}
     if script == "W2":
